@@ -39,6 +39,7 @@ RULE += (
          'Sources that change during the rendering (an object gains '
          'the attribute between two reads; 5 binders x 36 reader '
          'pairs); acquisition-wrapped callables in every source. ')
+RULE += ('Round 8: the call mapping and block mappings as dict subclasses that compute their answers (__missing__, overridden __getitem__) and as a mapping that is no dict. ')
 ASSUMPTIONS = ['reference interpreter vf/model.py is trusted for (b)']
 
 SOURCES = harness.SOURCE_ORDER
